@@ -617,6 +617,8 @@ for _p in ["C03", "C04", "C09", "C11", "C12", "C13", "C14", "C16", "C20"]:
 
 case("C17", "C17-D18", "mutant", "historical defect D18 re-introduced: TagDelete defers the Close of its DELETE response and runs the fallback under it",
      patch="selftest/regress/D18.diff", expect=[("C17.R9", "TagDelete", "response of Do")])
+case("C04", "C04-D19", "mutant", "historical defect D19 re-introduced: the wait loops overwrite a collected context.Canceled with a later nil completion",
+     patch="selftest/regress/D19.diff", expect=[("C04.R12", "imageCopyOpt", "completion received in a loop")])
 case("C17", "C17-D17", "mutant", "historical defect D17 re-introduced: the cancelled waiter searches the queue by the address of its (possibly zero-size) entry",
      patch="selftest/regress/D17.diff", expect=[("C17.R8", "Acquire", "own position")])
 
